@@ -185,6 +185,48 @@ def address_matrix():
     return out
 
 
+def copy_matrix():
+    """whole arrays, views and structures cannot be copied (E531, E532, E533): every aggregate in every copying position,
+    with a plain index / member value or one computed by a call in the same statement (the analyzer tracks "is a direct
+    call argument" in a flag: a call must not leave it set for the rest of the statement)"""
+    pre = ("struct S\n{\n\ta: i32,\n}\nstruct W\n{\n\tn: usize,\n\tinner: S,\n\trow: [2]i32,\n}\n"
+           "fn pick(i: usize) -> usize\n{\n\treturn: i\n}\nfn pick2(i: usize, j: usize) -> usize\n{\n\treturn: i + j\n}\n"
+           "fn noarg() -> usize\n{\n\treturn: 1\n}\n")
+    # (name, code, how main gets it, expression, its type, a literal of that type)
+    aggs = [("array", 531, "\tvar row: [2]i32 = [1, 2];\n", "row", "[2]i32", "[7, 8]"),
+            ("struct", 533, "\tvar st: S = S { a: 1 };\n", "st", "S", "S { a: 7 }")]
+    idxs = [("literal", "1"), ("call", "pick(1)"), ("call2", "pick2(0, 1)"), ("noarg-call", "noarg()"), ("variable", "k")]
+    out = []
+    for (an, code, adecl, aexpr, aty, alit) in aggs:
+        for (iname, idx) in idxs:
+            common = "\tvar k: usize = 1;\n" + adecl
+            m = "\tvar m: [2]%s = [%s, %s];\n" % (aty, alit, alit)
+            w = "\tvar w = W { n: 0, inner: S { a: 3 }, row: [3, 4] };\n"
+            field = "row" if an == "array" else "inner"
+            cases = [
+                ("element-of-array", common + m + "\tm[%s] = %s;\n" % (idx, aexpr)),
+                ("member-after-index", common + "\tvar ws: [2]W = [W { n: 0, inner: S { a: 3 }, row: [3, 4] }, W { n: 0, inner: S { a: 3 }, row: [3, 4] }];\n"
+                 "\tws[%s].%s = %s;\n" % (idx, field, aexpr)),
+                ("structure-literal-member", common + "\tvar w2 = W { n: %s, %s: %s, %s };\n" % (
+                    idx, field, aexpr, "inner: S { a: 3 }" if an == "array" else "row: [3, 4]")),
+                ("array-literal-element", common + "\tvar n: usize = %s;\n\tvar m2 = [%s, %s];\n" % (idx, aexpr, aexpr)),
+                ("declaration-after-call", common + "\tvar n: usize = %s;\n\tvar c = %s;\n" % (idx, aexpr)),
+                ("assignment", common + "\tvar c: %s = %s;\n\tvar n: usize = %s;\n\tc = %s;\n" % (aty, alit, idx, aexpr)),
+                ("member", common + w + "\tw.n = %s;\n\tw.%s = %s;\n" % (idx, field, aexpr)),
+            ]
+            for (pos, body) in cases:
+                out.append(("%s copied in %s (%s index)" % (an, pos, iname), code, pre + "fn main()\n{\n" + body + "}\n"))
+    # views (parameters) copied inside the callee
+    for (iname, idx) in idxs:
+        out.append(("view copied in declaration (%s)" % iname, 532,
+                    pre + "fn callee(data: []i32)\n{\n\tvar n: usize = %s;\n\tvar c = data;\n}\nfn main()\n{\n}\n" % idx))
+        out.append(("structure view copied into an element (%s)" % iname, 533,
+                    pre + "fn callee(sv: S)\n{\n\tvar kept: [2]S = [S { a: 1 }, S { a: 2 }];\n\tkept[%s] = sv;\n}\nfn main()\n{\n}\n" % idx))
+        out.append(("structure view copied into a literal (%s)" % iname, 533,
+                    pre + "fn callee(sv: S)\n{\n\tvar w = W { n: %s, inner: sv, row: [1, 2] };\n}\nfn main()\n{\n}\n" % idx))
+    return out
+
+
 def main():
     rep = Reporter("C08")
     if not setup_common(rep, THEOREMS):
@@ -251,6 +293,19 @@ def main():
         else:
             rep.violation("static:" + src, {"why": "expected %s, compiler says %s %s" % ("E%d" % exp if exp else "acceptance", hh, codes),
                                             "source": src, "harness_request": "alpha\tcheck\tm.pn\t" + esc(src), "implementation": ha[:300]})
+    # copy matrix
+    cm = copy_matrix()
+    ch = run_harness(["alpha\tcheck\tm.pn\t" + esc(src) for _, _, src in cm])
+    for (what, code, src), ha in zip(cm, ch):
+        total += 1
+        hh, hd = kv(ha)
+        codes = codes_of(hd) if hh == "err" else []
+        dist["copy:E%d:%s" % (code, "rejected" if code in codes else hh)] += 1
+        if code in codes:
+            agreeing += 1
+        else:
+            rep.violation("copy:" + what, {"why": "%s: expected E%d, compiler says %s %s" % (what, code, hh, codes), "source": src,
+                                           "harness_request": "alpha\tcheck\tm.pn\t" + esc(src), "implementation": ha[:300]})
     # forwarding matrix and address matrix
     fm = forwarding_matrix() + address_matrix()
     fh = run_harness(["alpha\trun\tm.pn\t" + esc(src) for _, src in fm])
